@@ -132,10 +132,10 @@ def evsSame : List Event → List Event → Bool
 /-- Why two texts of different values compare equal (classified on the model; narrow on purpose):
 `same-leaves` — the two event streams differ only in where `StartBody`/`EndRecord` stand: the comparator skips braces
   wherever the streams disagree and its size bookkeeping (`ValueType::len` is additive) cannot tell `{{1,1}}` from
-  `{1,{1}}` (finding C15-N3);
-anything else is `other`. -/
+  `{1,{1}}` (finding C15-N3) — and the comparator as modelled gives the same answer;
+anything else (a merge the modelled code would not make, or of texts with different leaves) is `other`. -/
 def mergeClass (a b : List Char) : String :=
-  if evsSame (leaves a) (leaves b) then "same-leaves" else "other"
+  if evsSame (leaves a) (leaves b) && compareRecon a b then "same-leaves" else "other"
 
 /-- The property on one `pair` line, from the implementation's answers alone. -/
 def pairVerdict (ha hb : String) (out : String) : Option String :=
